@@ -769,7 +769,7 @@ func init() {
 	Register(&Engine{
 		Prop: "C12", Name: "tarsim", Run: runC12,
 		Trials: map[string]int{"quick": 25000, "thorough": 300000},
-		Rule:   "a drawn well-formed logical tree (1-8 entries, regular files and directories, depth<=3, sizes 0,1,small-1,small,small+1,big+1,2*big+7 relative to knob buffer sizes small in {512,1024,2048} and big in {1024,2048,4096}, a small-buffer pool of 1-3 buffers), archived in a drawn order (children before parents, explicit/implicit/never mentioned parents) with drawn spellings (./x, /x, a//b, trailing /) and permission bits, 1 in 8 with an escaping name; fed through a simulated stream in drawn chunk sizes into tar.NewReaderFS with destination = default, explicit mem.FS, or an FS exposing only OpenFile+Chmod+Mkdir; the reader goroutine and every background writer are tasks of the seeded scheduler (gates at goroutine starts, channel wake-ups, stream reads, destination calls and every lock inside the in-memory destination); after Done() the tar FS and the destination are compared with the logical tree (bytes, permission bits of entries, nothing else) and UnarchiveErr(); non-trivial = at least one entry; distinct = event-log hash (archive + schedule)",
+		Rule:   "a drawn well-formed logical tree (1-8 entries, regular files and directories, depth<=3, sizes 0,1,small-1,small,small+1,big+1,2*big+7 relative to knob buffer sizes small in {512,1024,2048} and big in {1024,2048,4096}, a small-buffer pool of 1-3 buffers), archived in a drawn order (children before parents, explicit/implicit/never mentioned parents) with drawn spellings (./x, /x, a//b, trailing /) and permission bits, 1 in 8 with an escaping name; fed through a simulated stream in drawn chunk sizes into tar.NewReaderFS with destination = default, explicit mem.FS, or an FS exposing only OpenFile+Chmod+Mkdir; the reader goroutine and every background writer are tasks of the seeded scheduler (gates at goroutine starts, channel wake-ups, stream reads, destination calls and every lock inside the in-memory destination); after Done() the tar FS and the destination are compared with the logical tree (bytes, permission bits of entries, nothing else) and UnarchiveErr(); non-trivial = at least one entry; distinct = event-log hash (archive + schedule) One escaping archive in three uses a name resolving to '..' itself, half have a second escaping entry at the end.",
 		Components: map[string][]string{
 			"real": {"tar.ReaderFS incl. its goroutines, error channel, WaitGroup, buffer pools, pubsub", "archive/tar", "mem.FS destination"},
 			"stub": {"simulated stream", "capability/fault wrapper around the explicit minimal destination", "buffer sizes as knobs (shipped constants are 150 KiB / 4 MiB / 20 MiB)"},
@@ -778,7 +778,7 @@ func init() {
 	Register(&Engine{
 		Prop: "C13", Name: "tarsim", Run: runC13,
 		Trials: map[string]int{"quick": 30000, "thorough": 400000},
-		Rule:   "archives as in C12 (1-6 entries) streamed in drawn chunks while 1-4 opener tasks call Open(name) (entries early/late/being written, directories, missing names, '.') after drawn delays and a waiter blocks on Done(); one drawn fault: truncation at a 512-byte block, a reader error at a byte offset, a flipped byte, cancellation of the caller's context after a drawn number of steps, or a failing destination call (create, k-th write after a prefix, lossy close, mkdir, chmod); judged: a successful Open of a regular entry delivers exactly the entry's bytes; at quiescence every Open and Done() has returned (a blocked one is a deadlock verdict); without a fault every entry opens and UnarchiveErr() is nil; 1 in 6 trials drive the unexported pubsub and buffer pool directly: Wait returns only after Emit or cancellation and always eventually, never more than max buffers; distinct = event-log hash",
+		Rule:   "archives as in C12 (1-6 entries) streamed in drawn chunks while 1-4 opener tasks call Open(name) (entries early/late/being written, directories, missing names, '.') after drawn delays and a waiter blocks on Done(); one drawn fault: truncation at a 512-byte block, a reader error at a byte offset, a flipped byte, cancellation of the caller's context after a drawn number of steps, or a failing destination call (create, k-th write after a prefix, lossy close, mkdir, chmod); judged: a successful Open of a regular entry delivers exactly the entry's bytes; at quiescence every Open and Done() has returned (a blocked one is a deadlock verdict); without a fault every entry opens and UnarchiveErr() is nil; 1 in 6 trials drive the unexported pubsub and buffer pool directly: Wait returns only after Emit or cancellation and always eventually, never more than max buffers; distinct = event-log hash One archive in eight repeats a member (appended or right behind the earlier copy; its openers come after Done and may see either copy, complete).",
 		Components: map[string][]string{
 			"real": {"tar.ReaderFS, pubsub, bufferPool", "archive/tar", "mem.FS destination"},
 			"stub": {"simulated stream with faults", "fault wrapper around the minimal destination", "context cancelled by a harness task", "buffer sizes as knobs"},
